@@ -166,7 +166,7 @@ impl Nfa {
         self.set_end_state(nfa_end_state);
     }
 
-    pub(crate) fn alternation(&mut self, mut nfa: Nfa) {
+    pub(crate) fn alternation(&mut self, nfa: Nfa) {
         if self.is_empty() {
             // If the current NFA is empty, set the start and end states of the current NFA to the
             // start and end states of the new NFA
@@ -175,7 +175,12 @@ impl Nfa {
             self.states = nfa.states;
             return;
         }
+        self.unite(nfa);
+    }
 
+    /// Builds the union of the current NFA and the given NFA, also if the current NFA matches
+    /// only the empty string.
+    pub(crate) fn unite(&mut self, mut nfa: Nfa) {
         // Apply an offset to the state numbers of the given NFA
         let (nfa_start_state, nfa_end_state) = nfa.shift_ids(self.states.len());
 
@@ -367,9 +372,14 @@ impl Nfa {
                 Ok(nfa)
             }
             Ast::Alternation(ref a) => {
-                for ast in a.asts.iter() {
+                for (index, ast) in a.asts.iter().enumerate() {
                     let nfa2: Nfa = Self::try_from_ast(ast.clone(), char_class_registry)?;
-                    nfa.alternation(nfa2);
+                    if index == 0 {
+                        nfa.alternation(nfa2);
+                    } else {
+                        // An empty first alternative must not be replaced by the next one.
+                        nfa.unite(nfa2);
+                    }
                 }
                 Ok(nfa)
             }
